@@ -981,6 +981,10 @@ func (h *handler1) mqttPing() error {
 func (h *handler1) startSleepPinger(ctx context.Context, sleepDuration uint16) error {
 	h.stopSleepPinger()
 	h.sleepDuration = sleepDuration
+	if h.keepAlive == 0 {
+		// No keepalive was negotiated (can't happen for a connected client).
+		return nil
+	}
 
 	// The last packet forwarded to the broker could have been sent almost
 	// a whole keepalive period ago => we can't wait another period.
